@@ -243,7 +243,9 @@ fn run(prop: &str, tier: Tier, replay: Option<String>) -> i32 {
             level: "model_checking",
             tier,
             bounds,
-            wall_cap: Duration::from_secs(if tier == Tier::Quick { 45 } else { 1200 }),
+            // (VERIF_WALL_CAP_S: a smaller cap for smoke runs of the thorough configurations; the
+            // evidence records the largest bound completed and whether the cap cut a round)
+            wall_cap: Duration::from_secs(std::env::var("VERIF_WALL_CAP_S").ok().and_then(|s| s.parse().ok()).unwrap_or(if tier == Tier::Quick { 45 } else { 1200 })),
             rule: format!("every execution of the real tarpc code (client dispatch + callers, server channel + request stream + gated handlers, or a chain of both) under the harness-owned scheduler/transport/clock, for every listed configuration, with at most `bound_completed` deviations from the canonical schedule (a deviation = any choice other than the first option at a choice point: polling another woken task first, an unowed/duplicate/unknown peer message, an abandonment, a drop, a drain, a clock step, parking inside a drop). distinct_nontrivial counts distinct trace hashes among executions in which the property's antecedent occurred: {}", nontrivial_rule(prop)),
             assumptions: vec![
                 "tokio mpsc/oneshot, futures Abortable and tokio-util DelayQueue internals are trusted".into(),
